@@ -20,6 +20,7 @@ func init() {
 			{Name: "ws handler discards the hijacked reader", File: "proxy/ws_handler.go", Old: "go cp(out, brw)", New: "_ = brw\n\t\tgo cp(out, in)", Expect: "C09.B1"},
 			{Name: "copyBuffer writes one byte less", File: "proxy/tcp/copy_buffer.go", Old: "nw, ew := dst.Write(buf[0:nr])", New: "nw, ew := dst.Write(buf[0 : nr-1])", Expect: "C09.B3"},
 			{Name: "copyBuffer writes the whole buffer", File: "proxy/tcp/copy_buffer.go", Old: "nw, ew := dst.Write(buf[0:nr])", New: "nw, ew := dst.Write(buf)", Expect: "C09.B3"},
+			{Name: "read error examined before the bytes are written", File: "proxy/tcp/copy_buffer.go", Old: "\t\tnr, er := src.Read(buf)\n\t\tif nr > 0 {", New: "\t\tnr, er := src.Read(buf)\n\t\tif er != nil {\n\t\t\tif er != io.EOF {\n\t\t\t\terr = er\n\t\t\t}\n\t\t\tbreak\n\t\t}\n\t\tif nr > 0 {", Expect: "C09.B3"},
 			{Name: "short write ignored", File: "proxy/tcp/copy_buffer.go", Old: "\t\t\tif nr != nw {\n\t\t\t\terr = io.ErrShortWrite\n\t\t\t\tbreak\n\t\t\t}\n", New: "", Expect: "C09.B3"},
 			{Name: "PROXY header after the ClientHello", File: "proxy/tcp/sni_proxy.go", Old: "\t// write the data already read from the connection\n\tn, err := out.Write(data)", New: "\t// write the data already read from the connection\n\tn, err := out.Write(data)\n\tif t.ProxyProto {\n\t\tWriteProxyHeader(out, in)\n\t}", Expect: "C09.B4"},
 			{Name: "captured ClientHello not replayed", File: "proxy/tcp/sni_proxy.go", Old: "\tn, err := out.Write(data)\n", New: "\tn, err := len(data), error(nil)\n", Expect: "C09.B4"},
@@ -56,6 +57,7 @@ func runC09(c *Ctx) {
 		runC09B2(c, f)
 	}
 	runC09B3(c, ws)
+	runC09B3c(c)
 	for _, f := range handlers {
 		runC09B4(c, f)
 	}
